@@ -1471,7 +1471,7 @@ func (a *Analysis) CheckC18(rep *Report) {
 		if !hasEvent(pp.paths, isRead) || pp.err != nil {
 			continue
 		}
-		rej := a.spuriousRejections(pp.paths, pp.fn.TypeParams().Len() > 0 && len(pp.fn.TypeArgs()) == 0)
+		rej := a.spuriousRejections(pp.paths, genericRoot(pp.fn))
 		rep.Ob("O3-reader-accepts-values-at-the-limit", FuncName(pp.fn), len(rej) == 0, a.P.Pos(pp.fn.Pos()),
 			"the reader can refuse a complete value: "+strings.Join(rej, "; "))
 		// O4: a list at the limit has as many elements as the largest prefix says: the loop that reads them must be one
@@ -1704,4 +1704,21 @@ func (e *Event) IntType2Len(x *Val) *Val {
 		break
 	}
 	return mkLen(x)
+}
+
+// genericRoot: fn is a generic function's own body, or an instantiation some of whose type arguments are themselves
+// type parameters (the instance a generic caller makes): type parameters are symbolic in it.
+func genericRoot(fn *ssa.Function) bool {
+	if fn.TypeParams().Len() == 0 {
+		return false
+	}
+	if len(fn.TypeArgs()) == 0 {
+		return true
+	}
+	for _, ta := range fn.TypeArgs() {
+		if _, isTP := ta.(*types.TypeParam); isTP {
+			return true
+		}
+	}
+	return false
 }
